@@ -155,14 +155,13 @@ class ResolutionContext:
         try:
             return cache[key]
         except KeyError:
+            field_def = None  # type: Optional[Field]
             if name in ("__schema", "__type", "__typename"):
                 is_query_type = self.schema.query_type is parent_type
                 if self._disable_introspection:
                     return None
                 elif name == "__schema" and is_query_type:
-                    field_def = (
-                        SCHEMA_INTROSPECTION_FIELD
-                    )  # type: Optional[Field]
+                    field_def = SCHEMA_INTROSPECTION_FIELD
                 elif name == "__type" and is_query_type:
                     field_def = TYPE_INTROSPECTION_FIELD
                 elif name == "__typename":
